@@ -1,16 +1,30 @@
 //! C06 — hash maps behave as maps for every operation history and hasher (engine E1).
 //!
-//! Worked example of an E1 subject family: a tiny `MapLike` adapter per map type, one generic
-//! `MapSpec` that steps the real map and a `BTreeMap` in lock-step.
+//! A tiny `MapLike` adapter per map type, one generic `MapSpec` that steps the real map and a
+//! `BTreeMap` in lock-step.
+//!
+//! Alphabet.  Mutators are `Insert(k)`, `Remove(k)`, `SetMut(k)` (`*get_mut(k) = v`), `Clear` and, where the
+//! type offers it, `Compact` (`GoldHashMap::revoke_deleted`).  The value written by `Insert`/`SetMut` is not
+//! part of the alphabet: it is `1000 + number of mutators applied so far`, i.e. every write stores a value
+//! that identifies the write (strictly more discriminating than a {0,1} value alphabet, and it keeps the
+//! branching factor at 3·|K|+1).  All maps under test treat values as opaque.
+//!
+//! Projections.  The engine does not extend a history whose visit failed.  `ZiporaHashMap::iter()` yields
+//! tombstones, so in the full-oracle subjects nothing behind the first `Insert(k) Remove(k)` is explored.
+//! The `[...,noiter]` subjects run the same map with every observer except `iter()`; they exist *in addition
+//! to* the full-oracle subjects so that the insert/remove/get clauses are checked on histories with tombstones.
 
-use std::collections::BTreeMap;
 use std::collections::hash_map::DefaultHasher;
+use std::collections::BTreeMap;
 use std::hash::{BuildHasher, Hash, Hasher};
 use std::path::Path;
+use std::sync::Arc;
 use zverif::seq::{Seq, SeqSpec};
 use zverif::{check, Fail, Tier};
 
-use zipora::hash_map::{ZiporaHashMap, ZiporaHashMapConfig};
+use zipora::containers::specialized::{EasyHashMap, GoldHashIdx, HashStrMap, SmallMap};
+use zipora::hash_map::{GoldHashMap, GoldHashMapConfig, IterationStrategy, LinkType, ZiporaHashMap, ZiporaHashMapConfig};
+use zipora::memory::{SecureMemoryPool, SecurePoolConfig};
 
 // ---------------------------------------------------------------------------------------------
 // hostile hashers
@@ -76,23 +90,33 @@ impl BuildHasher for FixedSip {
 pub trait MapLike {
     /// `Err` = the map refused the insertion (allowed: nothing may change then)
     fn insert(&mut self, k: u64, v: u64) -> Result<Option<u64>, String>;
-    fn remove(&mut self, k: u64) -> Option<u64>;
+    /// `Err` = the map refused the removal (allowed: nothing may change then)
+    fn remove(&mut self, k: u64) -> Result<Option<u64>, String>;
     fn get(&self, k: u64) -> Option<u64>;
     /// `None` = operation not offered
     fn set_via_get_mut(&mut self, k: u64, v: u64) -> Option<bool>;
     fn contains(&self, k: u64) -> bool;
     fn len(&self) -> usize;
+    /// false = `clear` not offered
     fn clear(&mut self) -> bool;
     /// `None` = iteration not offered
     fn entries(&self) -> Option<Vec<(u64, u64)>>;
+    /// a mutator that must not change the abstract map (`revoke_deleted`); `None` = not offered
+    fn compact(&mut self) -> Option<Result<(), String>> {
+        None
+    }
+    /// `insert` reports the previous value (false: `EasyHashMap::put` returns `()`)
+    fn insert_reports_previous(&self) -> bool {
+        true
+    }
 }
 
 impl<S: BuildHasher> MapLike for ZiporaHashMap<u64, u64, S> {
     fn insert(&mut self, k: u64, v: u64) -> Result<Option<u64>, String> {
         ZiporaHashMap::insert(self, k, v).map_err(|e| e.to_string())
     }
-    fn remove(&mut self, k: u64) -> Option<u64> {
-        ZiporaHashMap::remove(self, &k)
+    fn remove(&mut self, k: u64) -> Result<Option<u64>, String> {
+        Ok(ZiporaHashMap::remove(self, &k))
     }
     fn get(&self, k: u64) -> Option<u64> {
         ZiporaHashMap::get(self, &k).copied()
@@ -121,20 +145,261 @@ impl<S: BuildHasher> MapLike for ZiporaHashMap<u64, u64, S> {
     }
 }
 
+/// The same map with `iter()` left out of the observers (see the module comment).
+pub struct NoIter<M: MapLike>(pub M);
+impl<M: MapLike> MapLike for NoIter<M> {
+    fn insert(&mut self, k: u64, v: u64) -> Result<Option<u64>, String> {
+        self.0.insert(k, v)
+    }
+    fn remove(&mut self, k: u64) -> Result<Option<u64>, String> {
+        self.0.remove(k)
+    }
+    fn get(&self, k: u64) -> Option<u64> {
+        self.0.get(k)
+    }
+    fn set_via_get_mut(&mut self, k: u64, v: u64) -> Option<bool> {
+        self.0.set_via_get_mut(k, v)
+    }
+    fn contains(&self, k: u64) -> bool {
+        self.0.contains(k)
+    }
+    fn len(&self) -> usize {
+        self.0.len()
+    }
+    fn clear(&mut self) -> bool {
+        self.0.clear()
+    }
+    fn entries(&self) -> Option<Vec<(u64, u64)>> {
+        None
+    }
+    fn compact(&mut self) -> Option<Result<(), String>> {
+        self.0.compact()
+    }
+    fn insert_reports_previous(&self) -> bool {
+        self.0.insert_reports_previous()
+    }
+}
+
+impl<L: LinkType> MapLike for GoldHashMap<u64, u64, L> {
+    fn insert(&mut self, k: u64, v: u64) -> Result<Option<u64>, String> {
+        GoldHashMap::insert(self, k, v).map_err(|e| e.to_string())
+    }
+    fn remove(&mut self, k: u64) -> Result<Option<u64>, String> {
+        GoldHashMap::remove(self, &k).map_err(|e| e.to_string())
+    }
+    fn get(&self, k: u64) -> Option<u64> {
+        GoldHashMap::get(self, &k).copied()
+    }
+    fn set_via_get_mut(&mut self, k: u64, v: u64) -> Option<bool> {
+        Some(match GoldHashMap::get_mut(self, &k) {
+            Some(slot) => {
+                *slot = v;
+                true
+            }
+            None => false,
+        })
+    }
+    fn contains(&self, k: u64) -> bool {
+        GoldHashMap::contains_key(self, &k)
+    }
+    fn len(&self) -> usize {
+        GoldHashMap::len(self)
+    }
+    fn clear(&mut self) -> bool {
+        GoldHashMap::clear(self);
+        true
+    }
+    fn entries(&self) -> Option<Vec<(u64, u64)>> {
+        Some(self.iter().map(|(k, v)| (*k, *v)).collect())
+    }
+    fn compact(&mut self) -> Option<Result<(), String>> {
+        Some(self.revoke_deleted().map_err(|e| e.to_string()))
+    }
+}
+
+impl MapLike for GoldHashIdx<u64, u64> {
+    fn insert(&mut self, k: u64, v: u64) -> Result<Option<u64>, String> {
+        GoldHashIdx::insert(self, k, v).map_err(|e| e.to_string())
+    }
+    fn remove(&mut self, k: u64) -> Result<Option<u64>, String> {
+        Ok(GoldHashIdx::remove(self, &k))
+    }
+    fn get(&self, k: u64) -> Option<u64> {
+        GoldHashIdx::get(self, &k).copied()
+    }
+    fn set_via_get_mut(&mut self, k: u64, v: u64) -> Option<bool> {
+        Some(match GoldHashIdx::get_mut(self, &k) {
+            Some(slot) => {
+                *slot = v;
+                true
+            }
+            None => false,
+        })
+    }
+    fn contains(&self, k: u64) -> bool {
+        GoldHashIdx::contains_key(self, &k)
+    }
+    fn len(&self) -> usize {
+        GoldHashIdx::len(self)
+    }
+    fn clear(&mut self) -> bool {
+        false
+    }
+    fn entries(&self) -> Option<Vec<(u64, u64)>> {
+        None
+    }
+}
+
+impl MapLike for SmallMap<u64, u64> {
+    fn insert(&mut self, k: u64, v: u64) -> Result<Option<u64>, String> {
+        SmallMap::insert(self, k, v).map_err(|e| e.to_string())
+    }
+    fn remove(&mut self, k: u64) -> Result<Option<u64>, String> {
+        Ok(SmallMap::remove(self, &k))
+    }
+    fn get(&self, k: u64) -> Option<u64> {
+        SmallMap::get(self, &k).copied()
+    }
+    fn set_via_get_mut(&mut self, k: u64, v: u64) -> Option<bool> {
+        Some(match SmallMap::get_mut(self, &k) {
+            Some(slot) => {
+                *slot = v;
+                true
+            }
+            None => false,
+        })
+    }
+    fn contains(&self, k: u64) -> bool {
+        SmallMap::contains_key(self, &k)
+    }
+    fn len(&self) -> usize {
+        SmallMap::len(self)
+    }
+    fn clear(&mut self) -> bool {
+        SmallMap::clear(self);
+        true
+    }
+    fn entries(&self) -> Option<Vec<(u64, u64)>> {
+        Some(self.iter().map(|(k, v)| (*k, *v)).collect())
+    }
+}
+
+impl MapLike for EasyHashMap<u64, u64> {
+    fn insert(&mut self, k: u64, v: u64) -> Result<Option<u64>, String> {
+        self.put(k, v);
+        Ok(None)
+    }
+    fn remove(&mut self, k: u64) -> Result<Option<u64>, String> {
+        Ok(EasyHashMap::remove(self, &k))
+    }
+    fn get(&self, k: u64) -> Option<u64> {
+        EasyHashMap::get(self, &k).copied()
+    }
+    fn set_via_get_mut(&mut self, _k: u64, _v: u64) -> Option<bool> {
+        // EasyHashMap has no plain get_mut (only get_or_insert*, which is an insertion)
+        None
+    }
+    fn contains(&self, k: u64) -> bool {
+        EasyHashMap::contains_key(self, &k)
+    }
+    fn len(&self) -> usize {
+        EasyHashMap::len(self)
+    }
+    fn clear(&mut self) -> bool {
+        EasyHashMap::clear(self);
+        true
+    }
+    fn entries(&self) -> Option<Vec<(u64, u64)>> {
+        None
+    }
+    fn insert_reports_previous(&self) -> bool {
+        false
+    }
+}
+
+/// String keys for `HashStrMap`: the empty string, a NUL inside, prefixes of each other, non-ASCII.
+fn str_key(k: u64) -> String {
+    match k {
+        0 => String::new(),
+        1 => "a".to_string(),
+        2 => "a\0".to_string(),
+        3 => "ab".to_string(),
+        4 => "\u{e9}".to_string(),
+        _ => format!("key_{k}"),
+    }
+}
+
+impl MapLike for HashStrMap<u64> {
+    fn insert(&mut self, k: u64, v: u64) -> Result<Option<u64>, String> {
+        HashStrMap::insert(self, &str_key(k), v).map_err(|e| e.to_string())
+    }
+    fn remove(&mut self, k: u64) -> Result<Option<u64>, String> {
+        Ok(HashStrMap::remove(self, &str_key(k)))
+    }
+    fn get(&self, k: u64) -> Option<u64> {
+        HashStrMap::get(self, &str_key(k)).copied()
+    }
+    fn set_via_get_mut(&mut self, k: u64, v: u64) -> Option<bool> {
+        Some(match HashStrMap::get_mut(self, &str_key(k)) {
+            Some(slot) => {
+                *slot = v;
+                true
+            }
+            None => false,
+        })
+    }
+    fn contains(&self, k: u64) -> bool {
+        HashStrMap::contains_key(self, &str_key(k))
+    }
+    fn len(&self) -> usize {
+        HashStrMap::len(self)
+    }
+    fn clear(&mut self) -> bool {
+        HashStrMap::clear(self);
+        true
+    }
+    fn entries(&self) -> Option<Vec<(u64, u64)>> {
+        // map the string back to the key index through the probe universe
+        let mut out = Vec::new();
+        for (s, v) in self.iter() {
+            let k = (0..64u64).find(|k| &str_key(*k) == s).unwrap_or(u64::MAX);
+            out.push((k, *v));
+        }
+        Some(out)
+    }
+}
+
 // ---------------------------------------------------------------------------------------------
 // the spec
 
-#[derive(Clone, Debug)]
+#[derive(Clone)]
 pub enum Op {
-    Insert(u64, u64),
+    Insert(u64),
     Remove(u64),
-    SetMut(u64, u64),
+    SetMut(u64),
     Clear,
+    Compact,
+}
+
+impl std::fmt::Debug for Op {
+    fn fmt(&self, f: &mut std::fmt::Formatter<'_>) -> std::fmt::Result {
+        match self {
+            Op::Insert(k) => write!(f, "Insert({k})"),
+            Op::Remove(k) => write!(f, "Remove({k})"),
+            Op::SetMut(k) => write!(f, "SetMut({k})"),
+            Op::Clear => write!(f, "Clear"),
+            Op::Compact => write!(f, "Compact"),
+        }
+    }
 }
 
 pub struct St {
     map: Box<dyn MapLike>,
     model: BTreeMap<u64, u64>,
+    /// number of mutators applied so far (the value written is 1000 + steps)
+    steps: u64,
+    /// a `remove` has succeeded since construction / the last `clear` (the table may hold a tombstone)
+    removed: bool,
 }
 
 pub struct MapSpec {
@@ -146,6 +411,15 @@ pub struct MapSpec {
     pub depth_quick: usize,
     pub depth_thorough: usize,
     pub with_clear: bool,
+    pub with_remove: bool,
+    pub with_compact: bool,
+    /// `*get_mut(k) = v` is in the alphabet (false for types without a plain get_mut)
+    pub with_setmut: bool,
+    /// maps whose internal hasher is seeded from the OS (`ahash::RandomState` / `AHasher::default()`):
+    /// `Insert(k)` of a key that is present is disabled once a `remove` has succeeded, because the outcome
+    /// of that one step (duplicate entry behind a tombstone) depends on the per-process seed
+    pub random_hasher_guard: bool,
+    pub note: &'static str,
 }
 
 const ABSENT_KEY: u64 = 0xDEAD_0000_0000_0001;
@@ -161,11 +435,27 @@ impl SeqSpec for MapSpec {
         tier.pick(self.depth_quick, self.depth_thorough)
     }
     fn bound(&self, tier: Tier) -> String {
+        let mut muts = vec!["insert(k,fresh v)"];
+        if self.with_remove {
+            muts.push("remove(k)");
+        }
+        if self.with_setmut {
+            muts.push("*get_mut(k)=fresh v");
+        }
+        if self.with_clear {
+            muts.push("clear");
+        }
+        if self.with_compact {
+            muts.push("revoke_deleted");
+        }
         format!(
-            "all histories of <= {} mutators from {{insert(k,v), remove(k), *get_mut(k)=v, clear}} over keys {:?} x values {{0,1}}, after prefill of {} keys; observers after every step: get/contains on every key + 1 absent key, len, iter() as sorted multiset",
+            "all histories of <= {} mutators from {{{}}} over keys {:?}, after a scripted prefill of {} keys; observers after every step: get/contains_key on every key + prefill keys + 1 absent key, len, iter() as sorted multiset (where offered){}{}",
             self.depth(tier),
+            muts.join(", "),
             self.keys,
-            self.prefill.len()
+            self.prefill.len(),
+            if self.random_hasher_guard { "; insert of a present key is disabled after a successful remove (seed-dependent step)" } else { "" },
+            if self.note.is_empty() { String::new() } else { format!("; {}", self.note) }
         )
     }
     fn init(&self, _scratch: &Path) -> Result<St, Fail> {
@@ -174,43 +464,62 @@ impl SeqSpec for MapSpec {
         for &k in &self.prefill {
             let r = map.insert(k, k).map_err(|e| Fail::new("prefill_insert_err", e))?;
             let m = model.insert(k, k);
-            check!(r == m, "insert_return", "prefill insert({k}) returned {:?}, model {:?}", r, m);
-        }
-        Ok(St { map, model })
-    }
-    fn ops(&self, _st: &St) -> Vec<Op> {
-        let mut v = Vec::new();
-        for &k in &self.keys {
-            for val in [0u64, 1] {
-                v.push(Op::Insert(k, val));
+            if map.insert_reports_previous() {
+                check!(r == m, "insert_return", "prefill insert({k}) returned {:?}, model {:?}", r, m);
             }
         }
+        Ok(St { map, model, steps: 0, removed: false })
+    }
+    fn ops(&self, st: &St) -> Vec<Op> {
+        let mut v = Vec::new();
         for &k in &self.keys {
-            v.push(Op::Remove(k));
+            if self.random_hasher_guard && st.removed && st.model.contains_key(&k) {
+                continue;
+            }
+            v.push(Op::Insert(k));
         }
-        for &k in &self.keys {
-            v.push(Op::SetMut(k, 1));
+        if self.with_remove {
+            for &k in &self.keys {
+                v.push(Op::Remove(k));
+            }
+        }
+        if self.with_setmut {
+            for &k in &self.keys {
+                v.push(Op::SetMut(k));
+            }
         }
         if self.with_clear {
             v.push(Op::Clear);
         }
+        if self.with_compact {
+            v.push(Op::Compact);
+        }
         v
     }
     fn apply(&self, st: &mut St, op: &Op) -> Result<(), Fail> {
+        st.steps += 1;
+        let v = 1000 + st.steps;
         match *op {
-            Op::Insert(k, v) => match st.map.insert(k, v) {
+            Op::Insert(k) => match st.map.insert(k, v) {
                 Ok(r) => {
                     let m = st.model.insert(k, v);
-                    check!(r == m, "insert_return", "insert({k},{v}) returned {:?}, model says {:?}", r, m);
+                    if st.map.insert_reports_previous() {
+                        check!(r == m, "insert_return", "insert({k},{v}) returned {:?}, model says {:?}", r, m);
+                    }
                 }
                 Err(_e) => { /* refused: model unchanged; observers will verify nothing changed */ }
             },
-            Op::Remove(k) => {
-                let r = st.map.remove(k);
-                let m = st.model.remove(&k);
-                check!(r == m, "remove_return", "remove({k}) returned {:?}, model says {:?}", r, m);
-            }
-            Op::SetMut(k, v) => {
+            Op::Remove(k) => match st.map.remove(k) {
+                Ok(r) => {
+                    let m = st.model.remove(&k);
+                    check!(r == m, "remove_return", "remove({k}) returned {:?}, model says {:?}", r, m);
+                    if m.is_some() {
+                        st.removed = true;
+                    }
+                }
+                Err(_e) => {}
+            },
+            Op::SetMut(k) => {
                 if let Some(found) = st.map.set_via_get_mut(k, v) {
                     let m = st.model.get_mut(&k).map(|s| *s = v).is_some();
                     check!(found == m, "get_mut", "get_mut({k}) found={found}, model says present={m}");
@@ -219,7 +528,12 @@ impl SeqSpec for MapSpec {
             Op::Clear => {
                 if st.map.clear() {
                     st.model.clear();
+                    st.removed = false;
                 }
+            }
+            Op::Compact => {
+                // must not change the abstract map; an Err is a refusal
+                let _ = st.map.compact();
             }
         }
         Ok(())
@@ -251,56 +565,197 @@ impl SeqSpec for MapSpec {
     }
 }
 
-fn zipora_spec<S: BuildHasher + Clone + 'static>(
-    label: &str,
-    cfg: fn() -> ZiporaHashMapConfig,
-    hasher: S,
+// ---------------------------------------------------------------------------------------------
+// subject constructors
+
+struct P {
     keys: Vec<u64>,
     prefill: Vec<u64>,
     dq: usize,
     dt: usize,
-) -> Seq<MapSpec> {
-    Seq(MapSpec {
+}
+
+fn p(keys: &[u64], prefill: Vec<u64>, dq: usize, dt: usize) -> P {
+    P { keys: keys.to_vec(), prefill, dq, dt }
+}
+
+fn spec(label: &str, make: Box<dyn Fn() -> Result<Box<dyn MapLike>, String>>, p: P) -> MapSpec {
+    MapSpec {
         name: label.to_string(),
-        make: Box::new(move || {
-            ZiporaHashMap::<u64, u64, S>::with_config_and_hasher(cfg(), hasher.clone())
-                .map(|m| Box::new(m) as Box<dyn MapLike>)
-                .map_err(|e| e.to_string())
-        }),
-        keys,
-        prefill,
-        depth_quick: dq,
-        depth_thorough: dt,
+        make,
+        keys: p.keys,
+        prefill: p.prefill,
+        depth_quick: p.dq,
+        depth_thorough: p.dt,
         with_clear: true,
-    })
+        with_remove: true,
+        with_compact: false,
+        with_setmut: true,
+        random_hasher_guard: false,
+        note: "",
+    }
+}
+
+fn zipora_spec<S: BuildHasher + Clone + 'static>(
+    label: &str,
+    cfg: impl Fn() -> ZiporaHashMapConfig + 'static,
+    hasher: S,
+    noiter: bool,
+    p: P,
+) -> Seq<MapSpec> {
+    let mut s = spec(
+        label,
+        Box::new(move || {
+            let m = ZiporaHashMap::<u64, u64, S>::with_config_and_hasher(cfg(), hasher.clone()).map_err(|e| e.to_string())?;
+            Ok(if noiter { Box::new(NoIter(m)) as Box<dyn MapLike> } else { Box::new(m) as Box<dyn MapLike> })
+        }),
+        p,
+    );
+    if noiter {
+        s.note = "projection: iter() is not observed (it yields tombstones; see the full-oracle subject)";
+    }
+    Seq(s)
+}
+
+fn pool_cfg() -> ZiporaHashMapConfig {
+    let pool = SecureMemoryPool::new(SecurePoolConfig::small_secure()).expect("SecureMemoryPool::new(small_secure)");
+    ZiporaHashMapConfig::concurrent_pool(pool)
+}
+
+fn sip(k: u64) -> u64 {
+    let mut h = DefaultHasher::new();
+    k.hash(&mut h);
+    h.finish()
+}
+
+/// The first `n` keys >= `from` whose GoldHashMap bucket (SipHash(0,0) mod `buckets`) equals the bucket of `anchor`.
+fn gold_colliding(anchor: u64, buckets: u64, from: u64, n: usize) -> Vec<u64> {
+    let want = sip(anchor) % buckets;
+    (from..).filter(|k| sip(*k) % buckets == want).take(n).collect()
+}
+
+fn gold_cfg(cap: usize, cache: bool, gc: bool, reuse: bool) -> GoldHashMapConfig {
+    GoldHashMapConfig {
+        initial_capacity: cap,
+        load_factor: 0.7,
+        enable_hash_cache: cache,
+        enable_auto_gc: gc,
+        enable_freelist_reuse: reuse,
+        default_iteration_strategy: IterationStrategy::Safe,
+    }
+}
+
+fn gold_spec<L: LinkType + 'static>(label: &str, cfg: impl Fn() -> GoldHashMapConfig + 'static, p: P) -> Seq<MapSpec> {
+    let mut s = spec(label, Box::new(move || Ok(Box::new(GoldHashMap::<u64, u64, L>::with_config(cfg())) as Box<dyn MapLike>)), p);
+    s.with_compact = true;
+    Seq(s)
 }
 
 fn main() {
     zverif::main_with("C06", |reg, _tier| {
-        let k4 = vec![0u64, 1, 2, 3];
-        let k3 = vec![0u64, 1, 2];
-        reg.add(zipora_spec("ZiporaHashMap[default]/FixedSip", ZiporaHashMapConfig::default, FixedSip, k4.clone(), vec![], 4, 5));
-        reg.add(zipora_spec("ZiporaHashMap[default]/Const(7)", ZiporaHashMapConfig::default, ConstBuild(7), k4.clone(), vec![], 4, 5));
-        reg.add(zipora_spec("ZiporaHashMap[default]/Const(0)", ZiporaHashMapConfig::default, ConstBuild(0), k3.clone(), vec![], 3, 4));
-        reg.add(zipora_spec("ZiporaHashMap[default]/Const(MAX)", ZiporaHashMapConfig::default, ConstBuild(u64::MAX), k3.clone(), vec![], 3, 4));
+        let k4: &[u64] = &[0, 1, 2, 3];
+        let k3: &[u64] = &[0, 1, 2];
+        let k2: &[u64] = &[0, 1];
+        let dflt = ZiporaHashMapConfig::default;
+
+        // ---- ZiporaHashMap, default preset (Standard storage), hostile hashers: full oracle
+        reg.add(zipora_spec("ZiporaHashMap[default]/FixedSip", dflt, FixedSip, false, p(k4, vec![], 4, 5)));
+        reg.add(zipora_spec("ZiporaHashMap[default]/Const(7)", dflt, ConstBuild(7), false, p(k4, vec![], 4, 5)));
+        reg.add(zipora_spec("ZiporaHashMap[default]/Const(0)", dflt, ConstBuild(0), false, p(k3, vec![], 3, 4)));
+        reg.add(zipora_spec("ZiporaHashMap[default]/Const(MAX)", dflt, ConstBuild(u64::MAX), false, p(k3, vec![], 3, 4)));
         reg.add(zipora_spec(
             "ZiporaHashMap[default]/Table(0,MAX,15,16)",
-            ZiporaHashMapConfig::default,
+            dflt,
             TableBuild(vec![0, u64::MAX, 15, 16]),
-            k4.clone(),
-            vec![],
-            3,
-            4,
+            false,
+            p(k4, vec![], 3, 4),
         ));
-        // start from non-initial states: grown tables
-        reg.add(zipora_spec(
-            "ZiporaHashMap[default]/FixedSip/prefill40",
-            ZiporaHashMapConfig::default,
-            FixedSip,
-            vec![0, 1, 100],
-            (10..50).collect(),
-            3,
-            4,
+        // start from non-initial states: grown tables (16 -> 32 -> 64 slots)
+        reg.add(zipora_spec("ZiporaHashMap[default]/FixedSip/prefill40", dflt, FixedSip, false, p(&[0, 1, 100], (10..50).collect(), 3, 4)));
+
+        // ---- the same storage without the iter() observer: histories with tombstones
+        reg.add(zipora_spec("ZiporaHashMap[default,noiter]/Const(7)", dflt, ConstBuild(7), true, p(k2, vec![], 5, 7)));
+        // hashes 5 and 21: same home slot (5) in a 16-slot table, different stored hash values
+        reg.add(zipora_spec("ZiporaHashMap[default,noiter]/Table(5,21)", dflt, TableBuild(vec![5, 21]), true, p(k2, vec![], 5, 7)));
+        // a full 16-slot table (prefill 14 + 2): removal/re-insertion at 100% load and across the resize to 32
+        reg.add(zipora_spec("ZiporaHashMap[default,noiter]/FixedSip/prefill14", dflt, FixedSip, true, p(k2, (10..24).collect(), 5, 6)));
+
+        // ---- concurrent_pool preset (falls back to Standard storage with 64 slots)
+        reg.add(zipora_spec("ZiporaHashMap[concurrent_pool]/FixedSip", pool_cfg, FixedSip, false, p(k3, vec![], 4, 5)));
+        reg.add(zipora_spec("ZiporaHashMap[concurrent_pool]/Const(7)", pool_cfg, ConstBuild(7), false, p(k3, vec![], 4, 5)));
+        reg.add(zipora_spec("ZiporaHashMap[concurrent_pool,noiter]/Const(7)", pool_cfg, ConstBuild(7), true, p(k2, vec![], 5, 6)));
+
+        // ---- presets whose storage back end is selected by the config
+        reg.add(zipora_spec("ZiporaHashMap[cache_optimized]/FixedSip", ZiporaHashMapConfig::cache_optimized, FixedSip, false, p(k2, vec![], 4, 5)));
+        reg.add(zipora_spec("ZiporaHashMap[string_optimized]/FixedSip", ZiporaHashMapConfig::string_optimized, FixedSip, false, p(k2, vec![], 4, 5)));
+        reg.add(zipora_spec("ZiporaHashMap[small_inline(4)]/FixedSip", || ZiporaHashMapConfig::small_inline(4), FixedSip, false, p(k2, vec![], 4, 5)));
+        reg.add(zipora_spec("ZiporaHashMap[small_inline(16)]/FixedSip", || ZiporaHashMapConfig::small_inline(16), FixedSip, false, p(k2, vec![], 4, 5)));
+
+        // ---- GoldHashMap: chained buckets; 5 buckets initially (rehash to 11 at the 4th key, to 23 at the 8th);
+        //      the four keys share one bucket of the 5-bucket table (SipHash(0,0) % 5), so every chain operation
+        //      (head/middle/tail unlink, freelist reuse) is reached
+        let g4 = gold_colliding(0, 5, 0, 4);
+        let g3: Vec<u64> = g4[..3].to_vec();
+        let gpre: Vec<u64> = gold_colliding(0, 5, 1000, 6); // six more keys in the same residue class
+        reg.add(gold_spec::<u32>("GoldHashMap[u32,cap5]", || gold_cfg(1, false, false, true), p(&g4, vec![], 4, 5)));
+        reg.add(gold_spec::<u64>("GoldHashMap[u64,cap5]", || gold_cfg(1, false, false, true), p(&g4, vec![], 4, 5)));
+        reg.add(gold_spec::<u32>("GoldHashMap[u32,cap5,hash_cache]", || gold_cfg(1, true, false, true), p(&g4, vec![], 4, 5)));
+        reg.add(gold_spec::<u32>("GoldHashMap[u32,cap5,auto_gc]", || gold_cfg(1, false, true, true), p(&g4, vec![], 4, 5)));
+        reg.add(gold_spec::<u64>("GoldHashMap[u64,cap5,auto_gc,hash_cache]", || gold_cfg(1, true, true, true), p(&g4, vec![], 4, 5)));
+        reg.add(gold_spec::<u32>("GoldHashMap[u32,cap5,no_freelist_reuse]", || gold_cfg(1, false, false, false), p(&g4, vec![], 4, 5)));
+        reg.add(gold_spec::<u32>("GoldHashMap[u32,cap5,hash_cache]/prefill6", || gold_cfg(1, true, false, true), p(&g3, gpre.clone(), 3, 4)));
+        reg.add(gold_spec::<u32>("GoldHashMap[u32,cap5,auto_gc]/prefill6", || gold_cfg(1, false, true, true), p(&g3, gpre.clone(), 3, 4)));
+        reg.add(gold_spec::<u32>("GoldHashMap[small()]", GoldHashMapConfig::small, p(&g4, vec![], 3, 4)));
+        reg.add(gold_spec::<u32>("GoldHashMap[high_churn()]", GoldHashMapConfig::high_churn, p(&g4, vec![], 3, 4)));
+
+        // ---- GoldHashIdx (open addressing with re-insertion of the following cluster on removal; AHasher::default())
+        let idx = |label: &str, make: Box<dyn Fn() -> Result<Box<dyn MapLike>, String>>, p: P| {
+            let mut s = spec(label, make, p);
+            s.with_clear = false;
+            s.note = "hash seed is per process (AHasher::default()): each shard explores the space under its own hash function";
+            Seq(s)
+        };
+        reg.add(idx("GoldHashIdx/new", Box::new(|| Ok(Box::new(GoldHashIdx::<u64, u64>::new()) as Box<dyn MapLike>)), p(k4, vec![], 4, 5)));
+        // 11 of 16 slots used: long clusters, and the resize to 32 slots happens at the 13th key
+        reg.add(idx("GoldHashIdx/prefill11", Box::new(|| Ok(Box::new(GoldHashIdx::<u64, u64>::new()) as Box<dyn MapLike>)), p(&[0, 1, 10], (10..21).collect(), 4, 5)));
+        reg.add(idx(
+            "GoldHashIdx/with_pool/prefill11",
+            Box::new(|| {
+                let pool = SecureMemoryPool::new(SecurePoolConfig::small_secure()).map_err(|e| e.to_string())?;
+                Ok(Box::new(GoldHashIdx::<u64, u64>::with_pool(16, pool as Arc<SecureMemoryPool>)) as Box<dyn MapLike>)
+            }),
+            p(&[0, 1, 10], (10..21).collect(), 3, 4),
         ));
+
+        // ---- SmallMap: inline arrays up to SMALL_MAP_THRESHOLD = 8, promoted to ZiporaHashMap at the 9th key
+        let small = |label: &str, p: P| Seq(spec(label, Box::new(|| Ok(Box::new(SmallMap::<u64, u64>::new()) as Box<dyn MapLike>)), p));
+        reg.add(small("SmallMap/new", p(k4, vec![], 4, 5)));
+        reg.add(small("SmallMap/prefill5", p(k3, (10..15).collect(), 4, 5))); // 5..8 entries: the partially unrolled search paths
+        reg.add(small("SmallMap/prefill7", p(k2, (10..17).collect(), 4, 5))); // 7, 8 (full inline), 9 (promoted)
+        reg.add(small("SmallMap/prefill8", p(&[0, 10], (10..18).collect(), 4, 5))); // key 10 is present: replace at the threshold must not promote
+
+        // ---- EasyHashMap (ZiporaHashMap<K,V,ahash::RandomState> inside: per-process hash seed)
+        let easy = |label: &str, make: Box<dyn Fn() -> Result<Box<dyn MapLike>, String>>, with_remove: bool, p: P| {
+            let mut s = spec(label, make, p);
+            s.with_remove = with_remove;
+            s.with_setmut = false;
+            s.random_hasher_guard = true;
+            s.note = "hash seed is per process (ahash::RandomState)";
+            Seq(s)
+        };
+        reg.add(easy("EasyHashMap/new", Box::new(|| Ok(Box::new(EasyHashMap::<u64, u64>::new()) as Box<dyn MapLike>)), true, p(k4, vec![], 4, 5)));
+        // put() re-creates the map at load 12/16: crossing the growth step, without removals
+        reg.add(easy("EasyHashMap/prefill11", Box::new(|| Ok(Box::new(EasyHashMap::<u64, u64>::new()) as Box<dyn MapLike>)), false, p(k3, (10..21).collect(), 3, 4)));
+        // auto_grow off: the inner table fills to 16/16 and is resized by ZiporaHashMap itself
+        reg.add(easy(
+            "EasyHashMap[builder,auto_grow=false]/prefill15",
+            Box::new(|| Ok(Box::new(EasyHashMap::<u64, u64>::initial_capacity(16).auto_grow(false).build()) as Box<dyn MapLike>)),
+            false,
+            p(k3, (10..25).collect(), 3, 4),
+        ));
+
+        // ---- HashStrMap (std HashMap<String, V> inside)
+        reg.add(Seq(spec("HashStrMap/new", Box::new(|| Ok(Box::new(HashStrMap::<u64>::new()) as Box<dyn MapLike>)), p(&[0, 1, 2, 3, 4], vec![], 3, 4))));
+        reg.add(Seq(spec("HashStrMap/prefill30", Box::new(|| Ok(Box::new(HashStrMap::<u64>::with_capacity(1)) as Box<dyn MapLike>)), p(&[0, 1, 10], (10..40).collect(), 3, 4))));
     });
 }
